@@ -81,6 +81,7 @@ func (v *Verifier) VerifyFunc(f *ssa.Function, fc *FuncContract) (res *FuncResul
 			}
 		}
 	}
+	st.assume(mk(SBool, "(not (select %s 0))", c.aliveCur(st).S))
 	fr.entry = st.heapSnapshot()
 	if fc != nil {
 		env := c.entryEnv(st, fr)
